@@ -36,7 +36,7 @@ def cases(tier, seed):
     for i in range(n):
         out.append({"w": "frag" if i % 4 == 3 else "synth", "seed": seed * 15013 + i, "ff": common.FFS[i % 6],
                     "p": {"maxlen": 6, "na_prob": 0.3 if i % 3 == 0 else 0.1, "waters": [0, 2, 4], "variant_prob": 0.15,
-                          "hydrogens": ["none", "all", "some"]}})
+                          "hydrogens": ["none", "all", "some"], "alias_prob": 0.2}})
     return out
 
 
